@@ -302,6 +302,8 @@ func (t *Transaction) DecodeHashableFields(buf []byte) error {
 		return errors.New("additional data after the signed part")
 	}
 	t.Scripts = make([]Witness, 0)
+	// The receiver can hold the size of another transaction.
+	t.size = 0
 	// The hash is defined by the canonical encoding (see NewTransactionFromBytes).
 	if canon, err := t.EncodeHashableFields(); err != nil || !bytes.Equal(canon, buf) {
 		return t.createHash()
@@ -483,6 +485,9 @@ func (t *Transaction) unmarshalJSONUnchecked(data []byte) (util.Uint256, int, er
 	t.SystemFee = tx.SystemFee
 	t.NetworkFee = tx.NetworkFee
 	t.Script = tx.Script
+	// The receiver can hold the hash and the size of another transaction.
+	t.hashed = false
+	t.size = 0
 
 	return tx.TxID, tx.Size, nil
 }
